@@ -95,8 +95,18 @@ func Float(n8 int) N {
 	return N{"k": "float", "text": t, "n8": n8}
 }
 
-func Bool(v bool) N           { return N{"k": "bool", "v": v} }
-func Str(s string) N          { return N{"k": "str", "v": Cps(s)} }
+func Bool(v bool) N  { return N{"k": "bool", "v": v} }
+func Str(s string) N { return N{"k": "str", "v": Cps(s)} }
+
+// strLit: a string of the pool, now and then written as a raw (backtick) literal
+func (g *Gen) strLit() N {
+	v := g.pick(strPool)
+	n := Str(v)
+	if g.chance(6) && !strings.ContainsAny(v, "`\n\r") {
+		n["bt"] = true
+	}
+	return n
+}
 func Id(n string) N           { return N{"k": "id", "n": n} }
 func Nil() N                  { return N{"k": "nil"} }
 func Bin(op string, a, b N) N { return N{"k": "bin", "op": op, "a": a, "b": b} }
@@ -125,7 +135,7 @@ func If(c N, t []any, e []any) N {
 }
 func Print(args ...any) N { return ExprStmt(Call(Id("print"), args...)) }
 
-var strPool = []string{"", "a", "bc", "b", "abc", "é", "xyz", "aéb", "éa"}
+var strPool = []string{"", "a", "bc", "b", "abc", "é", "xyz", "aéb", "éa", "a\nb", "q\"t", "b\\s", "t\tx"}
 
 // texpr generates an expression whose static type guess is `want`.
 func (g *Gen) texpr(d int, want string) N {
@@ -357,7 +367,7 @@ func (g *Gen) leafOf(t string) N {
 	case "bool":
 		return Bool(g.chance(2))
 	case "str":
-		return Str(g.pick(strPool))
+		return g.strLit()
 	case "list":
 		return List()
 	case "map":
@@ -376,7 +386,7 @@ func (g *Gen) leaf() N {
 	case 3:
 		return Bool(g.chance(2))
 	case 4:
-		return Str(g.pick(strPool))
+		return g.strLit()
 	case 5:
 		return Nil()
 	default:
